@@ -1,4 +1,5 @@
 ----------------------------- MODULE MC_Cascade -----------------------------
 EXTENDS Cascade, Json
-Emit == PrintT(<<"SCENARIO", ToJson([s |-> s, d |-> d, chosen |-> Chosen(s, d), allowed |-> Allowed(Chosen(s, d), s, d)])>>)
+Emit == PrintT(<<"SCENARIO", ToJson([s |-> s, d |-> d, chosen |-> Chosen(s, d), allowed |-> Allowed(Chosen(s, d), s, d),
+                                    near |-> IF Cardinality(CopyFails(s, d)) = 1 THEN CHOOSE x \in CopyFails(s, d) : TRUE ELSE ""])>>)
 =============================================================================
